@@ -36,6 +36,14 @@ def base_metafiles(tmp, rng):
             fd.write(oracle.ref_metafile("payload", files, pl, ver, extra_top=extra_top,
                                          extra_info={b"source": b"refsrc", b"x-unknown": {b"k": 1}}))
         out.append((f"ref-v{ver}", mf))
+    # BEP 12 tiers: an announce-list of several tiers (the creators only ever write one); a tracker edit replaces the whole list
+    for ver in (3,):
+        mf = os.path.join(tmp, "base", f"tiers-v{ver}.torrent")
+        with open(mf, "wb") as fd:
+            fd.write(oracle.ref_metafile("payload", files, pl, ver, extra_top={
+                b"announce": b"http://t1/a", b"announce-list": [[b"http://t1/a"], [b"http://b1/a", b"http://b2/a"], [b"http://c/a"]],
+                b"url-list": b"http://single/string"}, extra_info={b"private": 1}))
+        out.append((f"ref-v{ver}-tiers", mf))
     # foreign key ORDER (as a number of third-party tools write it): the top level and the info dictionary are not sorted; the
     # info-hash is over the bytes as they are in the file, so an edit that names no info field must leave the span alone
     for ver in (1, 2, 3):
@@ -102,7 +110,7 @@ def cli_argv(mf, req):
     return argv
 
 
-def enumerate_edits(ctx, visit, want_cli=True):
+def enumerate_edits(ctx, visit, want_cli=True, skip=None):
     """visit(label, request, via, before_raw, after_raw or None, exception or None)"""
     core.use_repo_in_process()
     from torrentfile.edit import edit_torrent
@@ -114,6 +122,8 @@ def enumerate_edits(ctx, visit, want_cli=True):
         reqs = all_requests(ctx.tier, ctx.rng)
         work = os.path.join(tmp, "w.torrent")
         for label, mf in bases:
+            if skip and skip(label):
+                continue
             before = oracle.read(mf)
             for combo, req in reqs:
                 for via in (("lib", "cli") if want_cli else ("lib",)):
